@@ -14,12 +14,19 @@
      steps w (start_cfg t es) c  an interleaved run: handlers are started in channel order while fewer than w are in
                                  flight (they read the tree then), and complete in any order (they write then)
      finished c                  every event handled
+     arg, cwd                    the -path argument AS IT WAS SPELLED (absolute or relative, clean or with a trailing
+                                 '/', "/./", "/x/../", "//") and the working directory of the process: any byte strings
+     g0                          generation + gofmt of one file given the FILE NAME the generator works with
+     gen_rel g0                  the specification's oracle: that name is the root-relative slash path of the file
+     gen_spelled g0 arg cwd      what a run started as `-path arg` in cwd computes (model/RootPath.v: the root is stored
+                                 verbatim when absolute, WalkFiles sends cleaned absolute names, the handler takes
+                                 filepath.Rel of the two, WithFileName reduces an absolute name to its base name)
      spec_holds l T failed       contents of every path as the property demands, nothing else touched (mtime
                                  included), failed <-> some template outside skipped directories cannot be generated *)
 From Coq.Strings Require Import Byte String.
 From Coq Require Import List NArith ZArith Bool Permutation.
 Import ListNotations.
-From V Require Import lib.Bytes model.Walk spec.WalkSpec proofs.WalkProof.
+From V Require Import lib.Bytes model.Walk spec.WalkSpec proofs.WalkProof model.RootPath proofs.RootPathProof.
 
 (* For every well-formed tree - whatever the root directory is called - every worker count, flag set and complete
    interleaved run: the final tree and exit status are the ones the property demands. *)
@@ -191,6 +198,68 @@ Proof.
   exact (untouched g k l (ctree c) _ (generate_spec g k z n root l w es c WF EV St Fi)).
 Qed.
 Print Assumptions C15_untouched.
+
+(* The output is a function of the TREE, not of how its root was spelled on the command line.  For every -path
+   argument and working directory (no hypothesis on either), the file name the handler gives the generator for a
+   file of the tree is that file's root-relative slash path - exactly what the specification's oracle receives. *)
+Theorem C15_name_given_root_relative :
+  forall (arg cwd : bytes) (p : path),
+  forallb valid_name (full p) = true -> name_given arg cwd p = of_path p.
+Proof. exact name_given_root_relative. Qed.
+Print Assumptions C15_name_given_root_relative.
+
+(* Hence a run started with ANY spelling of the root, in any working directory, meets the specification stated with
+   the root-relative oracle ... *)
+Theorem C15_root_spelling_irrelevant :
+  forall (g0 : bytes -> bytes -> option bytes) (arg cwd : bytes) (keep lazy : bool) (now : Z)
+         (root : bytes) (l : listing) (w : nat) (es : list path) (c : cfg),
+  wf_tree (gen_rel g0) lazy root l = true ->
+  (1 <= w)%nat ->
+  NoDup es /\ (forall p, In p (walk l) -> In p es)
+           /\ (forall p, In p es -> In p (walk l) \/ late_gen (lookup l) p) ->
+  steps (gen_spelled g0 arg cwd) keep lazy now w (start_cfg (lookup l) es) c -> finished c ->
+  spec_holds (gen_rel g0) keep l (ctree c) (exit_fail (cerrs c)).
+Proof. intros g0 arg cwd k z n root l w es c WF _ EV. exact (spelled_generate_spec g0 arg cwd k z n root l w es c WF EV). Qed.
+Print Assumptions C15_root_spelling_irrelevant.
+
+(* ... and two runs on one tree under two spellings of its root (two working directories, flag sets, clocks, worker
+   counts, interleavings) end with the same contents at every path and the same exit status. *)
+Theorem C15_spellings_agree :
+  forall (g0 : bytes -> bytes -> option bytes) (arg cwd arg' cwd' : bytes) (keep lazy lazy' : bool) (now now' : Z)
+         (root root' : bytes) (l : listing) (w w' : nat) (es es' : list path) (c c' : cfg),
+  wf_tree (gen_rel g0) lazy root l = true -> wf_tree (gen_rel g0) lazy' root' l = true ->
+  NoDup es /\ (forall p, In p (walk l) -> In p es)
+           /\ (forall p, In p es -> In p (walk l) \/ late_gen (lookup l) p) ->
+  NoDup es' /\ (forall p, In p (walk l) -> In p es')
+            /\ (forall p, In p es' -> In p (walk l) \/ late_gen (lookup l) p) ->
+  steps (gen_spelled g0 arg cwd) keep lazy now w (start_cfg (lookup l) es) c -> finished c ->
+  steps (gen_spelled g0 arg' cwd') keep lazy' now' w' (start_cfg (lookup l) es') c' -> finished c' ->
+  (forall q, content_of (ctree c q) = content_of (ctree c' q)) /\ exit_fail (cerrs c) = exit_fail (cerrs c').
+Proof.
+  intros g0 arg cwd arg' cwd' k z z' n n' root root' l w w' es es' c c' WF WF' EV EV' St Fi St' Fi'.
+  exact (spellings_agree g0 arg cwd arg' cwd' k z z' n n' root root' l w w' es es' c c' WF WF' EV EV' St Fi St' Fi').
+Qed.
+Print Assumptions C15_spellings_agree.
+
+(* the model does tell the spellings apart: an absolute argument is stored verbatim, a relative one is made absolute
+   and cleaned; the cleaned event name and the name given to the generator are the same for all of them *)
+Definition ex_nested : path := ([bs "views"; bs "admin"], bs "edit.templ").
+Example C15_ex_spellings :
+  stored_root (bs "/srv/app/") (bs "/home/u") = [[]; bs "srv"; bs "app"; []]
+  /\ stored_root (bs "/srv/x/../app") (bs "/home/u") = [[]; bs "srv"; bs "x"; bs ".."; bs "app"]
+  /\ stored_root (bs "../../srv/./app/") (bs "/home/u") = [bs "srv"; bs "app"]
+  /\ stored_root (bs ".") (bs "/srv/app") = [bs "srv"; bs "app"]
+  /\ (forall arg cwd, In (arg, cwd) [ (bs "/srv/app", bs "/"); (bs "/srv/app/", bs "/home/u"); (bs "/srv/./app", bs "/home/u");
+                                      (bs "/srv/x/../app", bs "/home/u"); (bs "//srv//app//", bs "/home/u"); (bs "/../srv/app/.", bs "/home/u");
+                                      (bs ".", bs "/srv/app"); (bs "", bs "/srv/app"); (bs "./app", bs "/srv"); (bs "app/", bs "/srv");
+                                      (bs "../app", bs "/srv/other"); (bs "../../srv/./app/", bs "/home/u"); (bs "..", bs "/srv/app/views") ] ->
+        event_name (stored_root arg cwd) ex_nested = [bs "srv"; bs "app"; bs "views"; bs "admin"; bs "edit.templ"]
+        /\ name_given arg cwd ex_nested = bs "views/admin/edit.templ")
+  /\ with_file_name (bs "/srv/app/views/admin/edit.templ") = bs "edit.templ".
+Proof.
+  repeat (split; [vm_compute; reflexivity|]). split; [|vm_compute; reflexivity].
+  intros arg cwd H. cbn [In] in H. repeat (destruct H as [H|H]; [inversion H; subst; vm_compute; split; reflexivity|]). destruct H.
+Qed.
 
 (* The executable predicate the harness evaluates on the real command's before/after trees decides [spec_holds]. *)
 Theorem C15_spec_check_sound :
